@@ -126,7 +126,7 @@ func TestVerif_C02(t *testing.T) {
 	for _, p := range append(append([][]byte{}, c02Prefixes...), []byte{0x23}, []byte{0x02}) {
 		base = append(base, vTrieOp{kind: "clearPrefix", k: p})
 	}
-	depth := verifmc.Pick(5, 7)
+	depth := verifmc.Pick(5, 10)
 	h := &verifmc.Hist[*vTrieState]{
 		Fresh: func() *vTrieState {
 			return &vTrieState{t: NewEmptyTrie(), m: ref.OMap{}, v: trie.V0}
